@@ -5,6 +5,7 @@ import (
 	"context"
 	"fmt"
 	"os"
+	"strconv"
 	"os/exec"
 	"path/filepath"
 	"strings"
@@ -47,11 +48,16 @@ var solvers = []solverDef{
 }
 
 func runSolver(ctx context.Context, sd solverDef, file string, timeoutS, seed int) (string, string, float64) {
-	args := sd.cmd(file, timeoutS, seed)
+	// The budget of a solver run is timeoutS seconds of CPU time (ulimit -t), with a wall-clock ceiling of wallFactor times that:
+	// on an idle machine the two coincide, on a loaded machine an obligation still gets the CPU time it needs instead of turning
+	// into a spurious timeout (the solvers' own timeouts are wall-clock).
+	wall := timeoutS * wallFactor()
+	args := sd.cmd(file, wall, seed)
 	start := time.Now()
-	cctx, cancel := context.WithTimeout(ctx, time.Duration(timeoutS+5)*time.Second)
+	cctx, cancel := context.WithTimeout(ctx, time.Duration(wall+5)*time.Second)
 	defer cancel()
-	cmd := exec.CommandContext(cctx, args[0], args[1:]...)
+	sh := fmt.Sprintf("ulimit -t %d; exec \"$@\"", timeoutS+1)
+	cmd := exec.CommandContext(cctx, "bash", append([]string{"-c", sh, "govc-solver"}, args...)...)
 	var out bytes.Buffer
 	cmd.Stdout = &out
 	cmd.Stderr = &out
@@ -76,10 +82,23 @@ func runSolver(ctx context.Context, sd solverDef, file string, timeoutS, seed in
 	if cctx.Err() != nil {
 		return "timeout", s, el
 	}
+	if cmd.ProcessState != nil && !cmd.ProcessState.Exited() {
+		return "timeout", s, el // killed by the CPU-time limit
+	}
 	if strings.Contains(s, "timeout") || strings.Contains(s, "interrupted") {
 		return "timeout", s, el
 	}
 	return "error", s, el
+}
+
+// wallFactor: wall-clock ceiling of a solver run as a multiple of its CPU budget (GOVC_WALL_FACTOR, default 4).
+func wallFactor() int {
+	if v := os.Getenv("GOVC_WALL_FACTOR"); v != "" {
+		if n, err := strconv.Atoi(v); err == nil && n >= 1 && n <= 20 {
+			return n
+		}
+	}
+	return 4
 }
 
 // raceSolvers runs all solvers on one query file and returns the first definite answer.
@@ -328,7 +347,7 @@ func (fc *FnCtx) solveAll(o solveOpts, tag string) {
 			undecided[ob] = true
 		}
 	}
-	if n := len(undecided); n > 0 && n <= 3 {
+	if n := len(undecided); n > 0 && n <= 8 { // was 3: on a loaded machine a heavy function (storage.finalizeTransaction) has 4-6 quick-tier timeouts that all pass in the retry tier
 		attempt(o.retryS, o.seed+7919, undecided)
 	}
 }
